@@ -112,6 +112,6 @@ LEAN_MODULES = ["DustVerif.Props.C24", "DustVerif.Props.C24Deadline"]
 BINS = ["hist", "dsim", "deadline"]
 
 TECHNIQUE = "Lean 4 theorems on the ownership filter of add_reader_change + differential correspondence"
-LEVEL_TEXT = 'Kernel-checked Lean theorems for all states / op lists: with EXCLUSIVE ownership a change from a matched writer that is not the owner and not strictly stronger is never stored and does not change ownership (C24_non_owner_not_stored, ties keep the first owner), unmatched writers are dropped, a strictly stronger writer takes over (C24_stronger_takes_over), SHARED never filters; each instance has at most one owner in every reachable state (C24_owner_unique, induction over arbitrary op lists); ownership is released when the owner disposes/unregisters (C24_handover_on_unregister) and when the owning writer is removed (C24_handover_on_writer_removed) - two genuine defects here (D54, D55: ownership never passed on) were found by probing the model and repaired. Instance-state changes by non-owners remain a recorded finding (D29); hand-over on a missed deadline (check_missed_reader_deadline in discovery_methods.rs) is covered by the deadline engine: C24_handover_on_deadline_miss (for all instance lists, every expired instance loses its ownership entry and all others keep theirs), tied to the real code by simulator scenarios with several instances expiring in one worker pass.'
+LEVEL_TEXT = 'Kernel-checked Lean theorems for all states / op lists: with EXCLUSIVE ownership a change from a matched writer that is not the owner and not strictly stronger is never stored and does not change ownership (C24_non_owner_not_stored, ties keep the first owner), unmatched writers are dropped, a strictly stronger writer takes over (C24_stronger_takes_over), SHARED never filters; each instance has at most one owner in every reachable state (C24_owner_unique, induction over arbitrary op lists); ownership is released when the owner disposes/unregisters (C24_handover_on_unregister), also when that change itself is then dropped by the time-based filter or rejected by a resource limit (C24_handover_even_if_not_stored), and when the owning writer is removed (C24_handover_on_writer_removed) - two genuine defects here (D54, D55: ownership never passed on) were found by probing the model and repaired. Instance-state changes by non-owners remain a recorded finding (D29); hand-over on a missed deadline (check_missed_reader_deadline in discovery_methods.rs) is covered by the deadline engine: C24_handover_on_deadline_miss (for all instance lists, every expired instance loses its ownership entry and all others keep theirs), tied to the real code by simulator scenarios with several instances expiring in one worker pass.'
 LEVEL_NOTE = 'Trusted: Lean kernel (axioms audited: propext, Classical.choice, Quot.sound at most); the hand-written model Model/ReaderHist.lean of data_reader_entity.rs / user_defined_data_reader.rs (handles as Nat, times as total ns, Vec as List); the hist harness that drives the real DataReaderEntity<()> / UserDefinedDataReader through the cfg(dust_dds_verif) re-export and prints canonical lines; the Python oracle. The differential run validates the model on sampled op sequences only; the theorems are about the model.'
 DESIGN_REF = 'DESIGN.md section 5 C24'
